@@ -278,6 +278,18 @@ def r3(ctx):
                     ok = r is not None and r.is_const and r.val is True
         obs.append(Ob('R3', '%s.%s/retry-true' % (cls, m), ok, '%s.%s must call %s(retry=True): indexing syntax has no '
                       'way to report a timeout' % (cls, m, callee), f.loc()))
+    # every other public operation of Cache and FanoutCache reports a lock timeout by default (retry=False): a True
+    # default turns "Timeout / failure value after `timeout` seconds" into blocking forever
+    special = set(R3_TRUE_DEFAULTS)
+    for cls in ('Cache', 'FanoutCache'):
+        for m, f in sorted(ctx.prog.classes[cls].methods.items()):
+            if (cls, m) in special or 'retry' not in f.params or (m.startswith('_') and not m.startswith('__')):
+                continue
+            if cls == 'FanoutCache' and ctx.prog.classes['Cache'].methods.get(m) is f:
+                continue
+            obs.append(Ob('R3', '%s.%s/default-retry-false' % (cls, m), _default_retry(f) is False,
+                          '%s.%s must default to retry=False (documented): with a True default the call never times '
+                          'out and never reports failure' % (cls, m), f.loc()))
     return obs
 
 
